@@ -283,6 +283,14 @@ class Ext(cpp2coq.Tr):
         return None
 
     def S(self, stmts, st, env, K):
+        if stmts and stmts[0]["k"] == "for" and len(stmts[0]["a"]) == 5 and stmts[0]["a"][0]["k"] == "?None":
+            # for (; begin != end; ++begin) { body }  is  while (begin != end) { body; ++begin; }  (no continue in the body:
+            # the translator has no rule for `continue` at all)
+            f = stmts[0]
+            body = f["a"][4] if f["a"][4]["k"] == "block" else dict(k="block", t="", n=None, a=[f["a"][4]])
+            w = dict(k="while", t="", n=None, a=[f["a"][2], dict(body, a=body["a"] + [f["a"][3]])])
+            if self.pair_cond(w["a"][0], env) is not None:
+                return self.S([w] + stmts[1:], st, env, K)
         if stmts and stmts[0]["k"] == "while":
             pc = self.pair_cond(stmts[0]["a"][0], env)
             if pc is not None:
